@@ -58,7 +58,8 @@ pub fn check(exec: &mut Exec, opts: &ROpts, sse: bool, append_ctx: u128) -> Resu
     } else {
         must("read_sync", exec.read_sync(opts.last_id, None, opts.ctx))?
     };
-    let hf = crate::httpx::follow_start(&sock, opts, sse)
+    // (the SSE variant also spells its switches as bare flags: `?follow&tail`)
+    let hf = crate::httpx::follow_start_spelled(&sock, opts, sse, sse)
         .map_err(|e| Fail::new(Class::Http, format!("following GET / ({render}, {opts:?}): {e}")))?;
     let mut checks = 0u64;
     let what = format!("{render}, {opts:?}");
